@@ -42,11 +42,11 @@ func ruleT2(c *Ctx, id string) {
 			continue
 		}
 		who := FuncName(cs.Caller)
-		why, ok := earlyRelease[who]
+		why, ok := byFunc(earlyRelease, who)
 		if !ok {
 			// a block of statements extracted from one of the sites
 			if o := ownerOf(cs.Caller); o != cs.Caller {
-				if w2, ok2 := earlyRelease[FuncName(o)]; ok2 {
+				if w2, ok2 := byFunc(earlyRelease, FuncName(o)); ok2 {
 					who, why, ok = FuncName(o), w2, true
 				}
 			}
